@@ -83,6 +83,8 @@ def cases(tier, seed):
             yield dict(base, mode="depth", depth=depth, shard=a.name)
         # (iii) gauge BFS + leaf groups
         leaf = acts["arith"] + acts["scalar"]
+        if quick and (fam == "eph" or (fam == "two" and n == 3)):
+            continue   # quick tier: these configurations are explored by prod and depth only (bfs in thorough)
         for i in range(0, len(leaf), 6):
             yield dict(base, mode="bfs", joint=not quick and n <= 3, shard=i)
 
